@@ -358,7 +358,7 @@ LEGS = [
         name="timeidx",
         run=run_case,
         strategy=lambda tier: case_strategy(tier),
-        quick=500, thorough=6000, quick_shards=4, thorough_shards=16, nt_floor=0.2,
+        quick=500, thorough=6000, quick_shards=4, thorough_shards=16, nt_floor=0.2, fuzz_runs=10_000,
         rule="ring state with pointer != 0, then select/insert ops (scalar / tensor / tensor+D times; 6 interpolations, "
              "8 extrapolations; strata on-grid, +-tol/2, +-2tol, fractions, both range limits, outside); non-trivial = "
              ">= 1 decisive off-grid element with distinct bracketing samples (or an off-grid insert) and pointer != 0",
